@@ -141,6 +141,11 @@ ShrinkLoop(kid, h, sz, ld, bf, asis) ==
   ELSE [t |-> kid, h |-> h, ld |-> ld]
 
 (* ---------------- observation helpers ---------------- *)
+\* a decoded tree may come from a defective writer: as many values as keys and one more child slot, in every node
+RECURSIVE WellFormed(_)
+WellFormed(kid) == kid = <<>> \/ (/\ Len(kid[1].v) = Len(kid[1].k) /\ Len(kid[1].c) = Len(kid[1].k) + 1
+                                   /\ \A j \in DOMAIN kid[1].c : WellFormed(kid[1].c[j]))
+
 RECURSIVE Entries(_)
 Entries(kid) ==
   IF kid = <<>> THEN <<>>
